@@ -17,7 +17,13 @@ def configs(tier, seed):
             cfgs.append(("c05", b, KEYS, full, False, 3 if b != "fs" else 2, seed))
         for b in ("mem", "fs+m", "fsc4", "fsc64"):
             cfgs.append(("c05", b, KEYS[1:3], ("s", "L", "X"), True, 5 if b == "mem" else 4, seed))
+        # every history kept apart (no state merging) on a small alphabet: hidden state a change may
+        # add to the library cannot be merged away by the canonical form
+        for b in ("mem", "fs", "fsc4"):
+            cfgs.append(("c05nm", b, KEYS[1:3], ("s", "X"), True, 3, seed))
     else:
+        for b in ("mem", "fs", "fsc4", "fs+m"):
+            cfgs.append(("c05nm", b, KEYS[1:3], ("s", "X", "N"), True, 4, seed))
         full = ("s", "L", "X", "N", "E")
         for b in ("mem", "fs", "fs+m", "fsc4", "fsc4+m", "fsc64"):
             cfgs.append(("c05", b, KEYS, full, False, 3 if b in ("fs+m", "fsc64") else 4, seed))
